@@ -109,6 +109,10 @@ func cmdFuncs(args []string) int {
 type GoroutineRoot struct {
 	Name      string   `json:"name"`
 	Functions []string `json:"functions"`
+	// OrderedWith: roots this one is synchronised with by construction (it starts them with `go` and
+	// touches shared state only before they start or after it has waited for them): accesses of the
+	// two are not counted as conflicting.  Trusted (happens-before is not analysed).
+	OrderedWith []string `json:"ordered_with"`
 }
 
 type oblGroup struct {
